@@ -353,6 +353,26 @@ theorem C11_memsafe_bmp (dev : Dev) (bytes : List UInt8) (st : Settings) (hconv 
   unfold decode runRaw
   exact memsafe_of_tr_nf (tr_bmp_run st hconv _) (nf_bmp_run st _)
 
+/-! ## whole-decode termination
+
+  Every loop of the three models is either structurally recursive on a counter taken from validated header fields and
+  settings (rows <= declared height, samples per row <= 3 * declared width, palette entries <= the allocation limit) or
+  a loop over the input that is given `unread bytes + 1` units of fuel at its entry. `C11_terminates` says that no such
+  fuel ever runs out, for any format, device, byte string, entry point and setting -- so every input loop makes at most
+  `file length + 1` iterations and the whole read takes a number of loop iterations linear in
+  `file length + declared width * declared height` (the only nested loops are rows x samples per row).
+  That no *genuine* non-termination (`Outcome.hang`) occurs is part of `C11_safe_pnm`, `C11_safe_targa`, `C11_memsafe_bmp`. -/
+
+/-- the fuel of the input-driven loops never runs out: all formats, devices, byte strings, entry points, settings -/
+theorem C11_terminates (f : Fmt) (dev : Dev) (bytes : List UInt8) (st : Settings) :
+    ∀ w, runRaw f dev bytes st ≠ .error (Stop.fuel w) := by
+  intro w
+  unfold runRaw
+  cases f with
+  | bmp => exact nf_bmp_run st _ w
+  | pnm => exact nf_pnm_run st _ w
+  | tga => exact nf_tga_run st _ w
+
 example : safe (decode .tga .sstream [0, 0, 10] { entry := .view, dst := .rgba8, x0 := 3, y0 := -1, dw := 7, dh := 0, vw := 2, vh := 2 }) = true :=
   C11_safe_targa _ _ _ (by intro h; cases h)
 
